@@ -143,11 +143,11 @@ GenS(c) ==
       [] k = "tlit"  -> S([k |-> "tlit", a |-> GenE(1, c), b |-> GenE(1, c)])
       [] k = "iset"  -> S([k |-> "iset", i |-> GenLeaf(c), e |-> GenE(1, c)])
       [] k = "iop"   -> S([k |-> "iop", i |-> GenE(1, c), e |-> GenE(1, c)])
-      [] k = "print" -> S([k |-> "print", e |-> GenE(2, c)])
+      [] k = "print" -> S([k |-> "print", id |-> Pick(100..99999), e |-> GenE(2, c)])
       [] k = "printg" -> S([k |-> "printg"])
       [] k = "asgc"  -> S([k |-> "asg", x |-> Pick(c.wr), e |-> GenCall(c)])
       [] k = "defc"  -> LET x == Pick(FreeNames(c)) IN D(x, [k |-> "def", x |-> x, e |-> GenCall(c)])
-      [] k = "printc" -> S([k |-> "print", e |-> GenCall(c)])
+      [] k = "printc" -> S([k |-> "print", id |-> Pick(100..99999), e |-> GenCall(c)])
       [] k = "csc"   -> S([k |-> "discard", e |-> GenCall(c)])
       [] k = "retc"  -> S([k |-> "ret", bare |-> FALSE, e |-> GenCall(c)])
       [] k = "opasgc" -> S([k |-> "opasg", x |-> Pick(c.loc), op |-> Pick({"add", "sub"}), e |-> CallE("f", GenE(1, c))])
@@ -247,7 +247,7 @@ DLit(body)  == [k |-> "defer", form |-> "lit", body |-> body, f |-> "", e |-> Li
 DPrint(e)   == [k |-> "defer", form |-> "print", body |-> <<>>, f |-> "", e |-> e]
 DCall(e)    == [k |-> "defer", form |-> "call", body |-> <<>>, f |-> "h", e |-> e]
 Rec(how, s) == [k |-> "recover", how |-> how, setr |-> s]
-PrintS(e)   == [k |-> "print", e |-> e]
+PrintS(e)   == [k |-> "print", id |-> 0, e |-> e]
 PanicS(v)   == [k |-> "panic", e |-> Lit(v)]
 AsgS(x, e)  == [k |-> "asg", x |-> x, e |-> e]
 For2(body)  == [k |-> "for", v |-> "i", n |-> 2, lab |-> "", body |-> body]
@@ -268,7 +268,7 @@ MenuF ==
     \cup { [k |-> "fault", kind |-> kd] : kd \in FamFaults }
 
 
-HFunc == [named |-> TRUE, body |-> << [k |-> "print", e |-> Var("p")], AsgS("r", Var("p")) >>]
+HFunc == [named |-> TRUE, body |-> << [k |-> "print", id |-> 1, e |-> Var("p")], AsgS("r", Var("p")) >>]
 TwoF  == [named |-> TRUE, body |-> << [k |-> "ret2", a |-> Bin("add", Var("p"), Lit(1)), b |-> Bin("mul", Var("p"), Lit(2))] >>]
 GFunc == [named |-> FALSE, body |-> << [k |-> "ret", bare |-> FALSE, e |-> Var("p")] >>]
 
